@@ -14,8 +14,9 @@ case: {"impl": dir with robsd-exec, "probe": path of proctree, "work": scratch d
 script ops (the same language the Coq model interprets):
   ["R", point]  continue the runner until it stops at sync point <point>
   ["B", ""]     continue the runner until it is blocked in waitpid (or has exited)
-  ["S", "TERM" | "ALRM" | "ALRMREAL"]
-                deliver the signal to the runner; ALRMREAL waits for the runner's own alarm(2)
+  ["S", "TERM" | "ALRM" | "ALRMREAL" | "PIPE"]
+                deliver the signal to the runner; ALRMREAL waits for the runner's own alarm(2); PIPE is the
+                signal the runner ignores (siginstall(SIGPIPE, SIG_IGN)): the harness expects no effect
   ["X", index]  node <index> exits on its own (SIGUSR1 to an 'e' node), wait until it is dead
   ["H", ""]     first op only: the forked child of robsd-exec is held (stopped) before setsid(2) by the
                 LD_PRELOAD shim tools/kl_hold.c - the step's process group does not come up
@@ -369,7 +370,14 @@ class Sched:
                 if not self.c.get('race') and (not self.held or self.released):
                     self.wait_ready()
                 w = self.where()
-                signo = signal.SIGTERM if arg == 'TERM' else signal.SIGALRM
+                if w == 'running' and not self.c.get('race'):
+                    # a driven script signals a runner that is stopped at a sync point or blocked; 'running' is a
+                    # transient reading of /proc on a loaded machine: look again for a moment
+                    end = time.time() + 0.5
+                    while w == 'running' and time.time() < end:
+                        time.sleep(0.005)
+                        w = self.where()
+                signo = {'TERM': signal.SIGTERM, 'PIPE': signal.SIGPIPE}.get(arg, signal.SIGALRM)
                 if w != 'exited':
                     try:
                         os.kill(self.pid, signo)
@@ -416,11 +424,15 @@ class Sched:
 
     # -- observation -------------------------------------------------------------
     def scan(self, members, pgid):
-        """index -> 'alive' | 'zombie' | 'gone'; plus strangers in the group"""
+        """index -> 'alive' | 'zombie' | 'gone'; plus strangers in the group.
+        PID REUSE: on a loaded machine the pid space (32768) wraps within seconds, and runs with a TERM-ignoring main
+        process last longer than that.  A pid only counts as a process of this step while it DESCENDS from this scheduler
+        (a child subreaper: every process of the step, orphaned or not, stays below it); a recycled pid does not."""
         res = {}
+        mine = set(descendants(os.getpid()))
         for idx, pid in members.items():
             st = stat_of(pid)
-            if st is None:
+            if st is None or pid not in mine:
                 res[idx] = 'gone'
             elif st[0] in 'ZX':
                 res[idx] = 'zombie'
@@ -430,7 +442,7 @@ class Sched:
         known = set(members.values())
         if pgid:
             for e in os.listdir('/proc'):
-                if e.isdigit() and int(e) not in known:
+                if e.isdigit() and int(e) not in known and int(e) in mine:
                     st = stat_of(int(e))
                     if st and st[2] == pgid and st[0] not in 'ZX':
                         strangers += 1
